@@ -166,3 +166,11 @@ def d2(cx: Cx, ob: Ob) -> None:
 @obligation("C08-D3", "MODE tail shape: None unreachable under strict or passthrough; the echo of the unmodified input is reachable exactly under (not strict, passthrough); success values identical in all modes", floor=40)
 def d3(cx: Cx, ob: Ob) -> None:
     check_tails(cx, ob, TARGETS)
+
+
+
+@obligation("C08-X2", "state closure (shared with C05): all derived converter state is maintained by _index, lookup tables are never rebound after construction, and no query method writes converter state (no stale caches)", floor=5)
+def x2(cx: Cx, ob: Ob) -> None:
+    from ..rules import state_closure
+
+    state_closure(cx, ob)
